@@ -72,7 +72,7 @@ def do_call(ex, st, e):
         return lemma_call(ex, st, o, args, e)
     if isinstance(o, SpecFun):
         return mk_int(o.z(*[spec_arg(ctx, st, a, e) for a in args]))
-    if isinstance(o, types.BuiltinFunctionType) or o in (int, bool, len, abs, min, max, range, sum, bytearray, isinstance):
+    if isinstance(o, types.BuiltinFunctionType) or o in (int, bool, len, abs, min, max, range, sum, bytearray, isinstance, getattr):
         return builtin_call(ex, st, o, args, kwargs, e)
     if isinstance(o, types.FunctionType):
         fq = frontend.fq_of(o)
@@ -166,6 +166,15 @@ def ghost_call(ex, st, name, e):
         return mk_int(ctx.field_array(st, "len", AII)[args[0].z])
     if name == "field":
         return ex.load_field(st, args[0], args[1].x, e)
+    if name == "is_fresh":
+        # allocated during the call: distinct from every object that existed on entry and, when a callee's
+        # postcondition is assumed at a call site, from everything the caller has allocated so far
+        z = args[0].z
+        if getattr(ctx, "assuming_post", False):
+            others = [o for o in ctx.alloc_refs if not o.eq(z)]
+            ctx.alloc_refs.append(z)
+            return mk_bool(z3.And(z < 0, *[z != o for o in others]))
+        return mk_bool(z < 0)
     if name == "store":
         return SV("array", z3.Store(args[0].z, as_int(ctx, st, args[1], e), as_int(ctx, st, args[2], e)))
     if name == "define":
@@ -328,6 +337,16 @@ def builtin_call(ex, st, o, args, kwargs, e):
                 r = r + as_int(ctx, st, x, e)
             return mk_int(r)
         raise Unsupported("sum of %s" % a.k, e)
+    if name == "getattr" and len(args) == 2 and args[0].k == "conc" and args[1].k == "str":
+        if args[1].x is not None:
+            try:
+                return lift_conc(ctx, mk_conc(getattr(args[0].z, args[1].x)), e)
+            except AttributeError:
+                raise Unsupported("getattr of a missing constant attribute", e)
+        note = "TRUSTED: getattr(%s, <symbol>) does not raise (every symbol the matchers can report names a member: ground fact M3, evaluated each run)" % getattr(args[0].z, "__name__", "?")
+        if note not in ctx.notes:
+            ctx.notes.append(note)
+        return mk_int(ctx.fresh("getattr"))
     if name == "isinstance":
         raise Unsupported("isinstance", e)
     if name == "bytearray":
@@ -346,6 +365,9 @@ def method_call(ex, st, bm, args, kwargs, e):
     if recv.k in ("int", "bool") and name == "bit_length":
         x = as_int(ctx, st, recv, e)
         return mk_int(blen(x))
+    if recv.k == "optref":
+        ctx.oblige(st, z3.Not(recv.z[0]), "not-none", e, "receiver of .%s() is not None" % name)
+        recv = mk_ref(recv.z[1], recv.x)
     if recv.k == "ref":
         kind = recv.x or ""
         h = ex.reg.builtin_methods.get((kind.split(":")[0], name))
@@ -372,19 +394,24 @@ def class_call(ex, st, cls, args, kwargs, e):
         bad = st.fork(z3.Not(ok))
         ex.deliver_raise(bad, ValueError, e)
         st.pc.append(ok)
-        return mk_int(v)
+        return SV("int", v, cls)
     raise Unsupported("constructor call %s" % cls.__name__, e)
 
 
 # ---------------------------------------------------------------------------
 
 
-def bind_params(ex, st, fsrc_params, modname, args, kwargs, e, what):
+def bind_params(ex, st, fsrc_params, modname, args, kwargs, e, what, vararg=None):
     ctx = ex.ctx
     env = {}
     names = [p for p, _ in fsrc_params]
     if len(args) > len(names):
-        raise Unsupported("too many arguments for %s" % what, e)
+        if vararg is None:
+            raise Unsupported("too many arguments for %s" % what, e)
+        env[vararg] = mk_tuple(args[len(names):])
+        args = args[: len(names)]
+    elif vararg is not None:
+        env[vararg] = mk_tuple([])
     for n, a in zip(names, args):
         env[n] = a
     for k, v in kwargs.items():
@@ -427,7 +454,8 @@ def inline_call(ex, st, fq, args, kwargs, e):
     ex.reg.used_transparent.add(fq)
     if ctx.inline_depth > 12:
         raise Unsupported("inlining too deep at %s" % fq, e)
-    env = bind_params(ex, st, fsrc.params(), fsrc.module, args, kwargs, e, fq)
+    va = fsrc.node.args.vararg.arg if fsrc.node.args.vararg else None
+    env = bind_params(ex, st, fsrc.params(), fsrc.module, args, kwargs, e, fq, vararg=va)
     fr = Frame(fq, fsrc.module, fsrc.cls)
     body = frontend.strip_docstring(fsrc.node)
     fr.locals_assigned = assigned_names(body) | set(env)
@@ -525,6 +553,13 @@ def fresh_of_type(ex, t, name):
         return mk_tuple([fresh_of_type(ex, x, name + str(i)) for i, x in enumerate(t[6:].split(","))])
     if t in ("array", "bytes"):
         return SV("array", ctx.fresh(name, AII))
+    if t == "class":
+        # an exception class passed as a parameter: a fresh class nothing else is related to
+        cls = type("@" + name, (Exception,), {})
+        ctx.param_classes[name] = cls
+        return mk_conc(cls)
+    if t.startswith("opaque"):
+        return mk_ref(ctx.fresh(name), t)
     if t in ("dict", "file", "opaque", "bytearray") or t.startswith(("list", "obj:", "dict:")):
         return mk_ref(ctx.fresh(name), t)
     raise Unsupported("type %s" % t)
@@ -586,7 +621,9 @@ def contract_call(ex, st, contract, args, kwargs, e):
     ctx = ex.ctx
     ex.reg.used_contracts.add(contract.fq)
     fsrc = frontend.get_function(contract.fq)
-    env = bind_params(ex, st, fsrc.params(), fsrc.module, args, kwargs, e, contract.fq)
+    va = fsrc.node.args.vararg.arg if fsrc.node.args.vararg else None
+    env = bind_params(ex, st, fsrc.params(), fsrc.module, args, kwargs, e, contract.fq, vararg=va)
+    env.pop(va, None)
     # coerce concrete constants
     for k in list(env):
         if env[k].k == "conc":
@@ -644,9 +681,13 @@ def contract_call(ex, st, contract, args, kwargs, e):
         tmp = post.fork()
         tmp.env = penv
         tmp.defd = {k: z3.BoolVal(True) for k in penv}
-        for (txt, node) in contract.ensures:
-            z = ex.ev_spec(tmp, node)
-            ctx.assume(post, z)
+        ctx.assuming_post = True
+        try:
+            for (txt, node) in contract.ensures:
+                z = ex.ev_spec(tmp, node)
+                ctx.assume(post, z)
+        finally:
+            ctx.assuming_post = False
     finally:
         ctx.frames.pop()
     st.heap = post.heap
@@ -722,7 +763,9 @@ def callee_effects(ex, st, call, assigned, stable_ref):
             if kind.startswith("obj:"):
                 target_fq = reg.classes.get(kind[4:], "?") + "." + f.attr
             else:
-                eff = reg.builtin_method_effects.get((kind.split(":")[0], f.attr))
+                eff = reg.builtin_method_effects.get((kind, f.attr))
+                if eff is None:
+                    eff = reg.builtin_method_effects.get((kind.split(":")[0], f.attr))
                 if eff is None:
                     return []
                 return [(recv.z, fld) for fld in eff]
